@@ -4713,12 +4713,10 @@ where
                 )
               })
           }
-          _ => Some(format!(
-            "expected value {} {}, got {:?}",
-            self.state.ctrl.unwrap(),
-            t,
-            b
-          )),
+          // a text literal against a byte string with no control operator in
+          // effect is a plain mismatch, not a control-operator failure
+          None => Some(format!("expected value {}, got {:?}", t, b)),
+          Some(ctrl) => Some(format!("expected value {} {}, got {:?}", ctrl, t, b)),
         },
         #[cfg(feature = "additional-controls")]
         token::Value::BYTE(bv) => match &self.state.ctrl {
